@@ -133,7 +133,8 @@ CHECKS = {
         "rule": "case = C03-style world plus up to 5 extra pods crossing owner (this set / none / same-named set with another UID / another kind / a "
                 "second set with the same selector) x label match x name shape (S-i, S-0i, S-x, other-i, S-i-0) x terminating, up to 3 extra "
                 "ControllerRevisions crossing owner x labels (selector / upgrade marker / both / none) x equal-or-different data, an optional second "
-                "set with an overlapping selector, and histories in which the cached set goes stale (set deleted, re-created with a new UID, deletion "
+                "set with an overlapping selector (replicas 0-3) that the same controller reconciles at up to 4 drawn points of the history - every write of those "
+                "reconciles must be on its own status, on pods named <second>-<ordinal> that it controls or may adopt, or on revisions no other owner controls -, and histories in which the cached set goes stale (set deleted, re-created with a new UID, deletion "
                 "timestamp set in the API only). Oracle per reconcile: adopt patches only on adoptable pods and only after an uncached GET that "
                 "confirmed UID and no deletion timestamp; release patches only on owned pods that stopped matching and removing exactly the own "
                 "reference; no write at all on a pod or ControllerRevision controlled by another owner; no delete of a non-member; status.replicas "
@@ -141,6 +142,7 @@ CHECKS = {
                 "Non-trivial = the snapshot holds an object the controller must not touch or must adopt/release and the reconcile issued a write; "
                 "distinct = distinct case",
         "legs": [{"test": "TestC10", "quick": {"checks": 3000}, "thorough": {"checks": 400000, "shards": 16}}],
+        "floors": {"second-set-reconcile-wrote": 0.1},
         "assumptions": ["revisions carrying the upgrade marker naming this set are treated as handed over to it (C17/C18), whoever still owns them",
                         "pods named S-<digits> with a non-canonical number (S-01, S-99999999999) are ambiguous under 'name is S-<ordinal>': generated, not judged",
                         "re-using an existing identical-data revision whose name collides (C08) is not counted as 'using a foreign revision'"] + COMMON_ASSUMPTIONS,
